@@ -389,6 +389,9 @@ def main(argv=None):
         hit = {ln for f, ln in total.lines if f == rel}
         if ex:
             line_cov[rel] = {"executable_lines": len(ex), "lines_hit": len(hit & ex)}
+            if os.environ.get("VERIF_COV_MISSED"):  # development aid: which anchored lines the exploration never ran
+                with open(os.environ["VERIF_COV_MISSED"], "a") as f:
+                    f.write(f"{prop_id} {rel} missed: {sorted(ex - hit)}\n")
     evidence = {
         "property_id": prop_id,
         "tier": tier,
